@@ -750,16 +750,20 @@ Section WITH_REC.
 (* [fr] is followRule at smaller fuel *)
 Variable fr : node -> ctx -> ctx * option err.
 
-(* DecodeRuleset *)
-Fixpoint rules (l : list node) (c : ctx) : ctx * option err :=
+(* DecodeRuleset: stops at the first failing rule or break / continue; a
+   lazybreak is remembered, the rest of the block runs, and the signal is handed
+   on afterwards *)
+Fixpoint rules_lz (l : list node) (c : ctx) (lz : bool) : ctx * option err :=
   match l with
-  | [] => (c, None)
+  | [] => (c, if lz then Some ELBreak else None)
   | n :: r =>
       match fr n c with
-      | (c', None) => rules r c'
+      | (c', None) => rules_lz r c' lz
+      | (c', Some ELBreak) => rules_lz r c' true
       | res => res
       end
   end.
+Definition rules (l : list node) (c : ctx) : ctx * option err := rules_lz l c false.
 
 (* the body of one loop iteration, as both loop drivers read it *)
 Fixpoint body (l : list node) (c : ctx) (lazy : bool) : ctx * bodyres :=
